@@ -310,6 +310,12 @@ fn encode_address(buf: &mut BytesMut, addr: Option<&TargetAddress>) {
         TargetAddress::DomainPort(host, port) => {
             let str = host.as_bytes();
             let len = str.len() + 2;
+            if len > u8::MAX as usize {
+                // does not fit the one byte length field, send the frame without address
+                // rather than with a wrapped length
+                tracing::warn!("host name too long for frame header: {} bytes", str.len());
+                return;
+            }
             buf.put_u8(ATYP_HOST);
             buf.put_u8(len as u8);
             buf.put_slice(str);
